@@ -2,8 +2,9 @@
 From MB Require Import Base.Prelude Model.Codec.Base64.
 Open Scope N_scope.
 
-(* let [lia] reason about division / modulo by constants (local to this file) *)
-Local Ltac Zify.zify_post_hook ::= Z.to_euclidean_division_equations.
+(* [lia] extended with division / modulo by constants; the global zify hook is
+   deliberately not redefined so that importing this file has no side effect *)
+Ltac dlia := Zify.zify; Z.to_euclidean_division_equations; lia.
 
 (** * Bounded exhaustive checking *)
 
@@ -100,14 +101,14 @@ Lemma b64_quad_roundtrip (a b c : N) :
 Proof.
   intros Ha Hb Hc.
   unfold b64_decode_quad.
-  rewrite (b64_val_char (a / 4)) by lia.
-  rewrite (b64_val_char ((a mod 4) * 16 + b / 16)) by lia.
-  rewrite (b64_val_char ((b mod 16) * 4 + c / 64)) by lia.
-  rewrite (b64_val_char (c mod 64)) by lia.
-  assert (E1 : a / 4 * 4 + ((a mod 4) * 16 + b / 16) / 16 = a) by lia.
+  rewrite (b64_val_char (a / 4)) by dlia.
+  rewrite (b64_val_char ((a mod 4) * 16 + b / 16)) by dlia.
+  rewrite (b64_val_char ((b mod 16) * 4 + c / 64)) by dlia.
+  rewrite (b64_val_char (c mod 64)) by dlia.
+  assert (E1 : a / 4 * 4 + ((a mod 4) * 16 + b / 16) / 16 = a) by dlia.
   assert (E2 : ((a mod 4) * 16 + b / 16) mod 16 * 16
-               + ((b mod 16) * 4 + c / 64) / 4 = b) by lia.
-  assert (E3 : ((b mod 16) * 4 + c / 64) mod 4 * 64 + c mod 64 = c) by lia.
+               + ((b mod 16) * 4 + c / 64) / 4 = b) by dlia.
+  assert (E3 : ((b mod 16) * 4 + c / 64) mod 4 * 64 + c mod 64 = c) by dlia.
   rewrite E1, E2, E3.
   reflexivity.
 Qed.
@@ -120,7 +121,7 @@ Lemma b64_last3_roundtrip (a b c : N) :
 Proof.
   intros Ha Hb Hc.
   unfold b64_decode_last.
-  rewrite (b64_char_not_pad (c mod 64)) by lia.
+  rewrite (b64_char_not_pad (c mod 64)) by dlia.
   apply b64_quad_roundtrip; assumption.
 Qed.
 
@@ -133,13 +134,13 @@ Proof.
   intros Ha Hb.
   unfold b64_decode_last.
   rewrite (N.eqb_refl B64_PAD).
-  rewrite (b64_char_not_pad ((b mod 16) * 4)) by lia.
-  rewrite (b64_val_char (a / 4)) by lia.
-  rewrite (b64_val_char ((a mod 4) * 16 + b / 16)) by lia.
-  rewrite (b64_val_char ((b mod 16) * 4)) by lia.
-  assert (E0 : (b mod 16) * 4 mod 4 = 0) by lia.
-  assert (E1 : a / 4 * 4 + ((a mod 4) * 16 + b / 16) / 16 = a) by lia.
-  assert (E2 : ((a mod 4) * 16 + b / 16) mod 16 * 16 + (b mod 16) * 4 / 4 = b) by lia.
+  rewrite (b64_char_not_pad ((b mod 16) * 4)) by dlia.
+  rewrite (b64_val_char (a / 4)) by dlia.
+  rewrite (b64_val_char ((a mod 4) * 16 + b / 16)) by dlia.
+  rewrite (b64_val_char ((b mod 16) * 4)) by dlia.
+  assert (E0 : (b mod 16) * 4 mod 4 = 0) by dlia.
+  assert (E1 : a / 4 * 4 + ((a mod 4) * 16 + b / 16) / 16 = a) by dlia.
+  assert (E2 : ((a mod 4) * 16 + b / 16) mod 16 * 16 + (b mod 16) * 4 / 4 = b) by dlia.
   rewrite E0, E1, E2.
   reflexivity.
 Qed.
@@ -152,10 +153,10 @@ Proof.
   intros Ha.
   unfold b64_decode_last.
   rewrite (N.eqb_refl B64_PAD).
-  rewrite (b64_val_char (a / 4)) by lia.
-  rewrite (b64_val_char ((a mod 4) * 16)) by lia.
-  assert (E0 : (a mod 4) * 16 mod 16 = 0) by lia.
-  assert (E1 : a / 4 * 4 + (a mod 4) * 16 / 16 = a) by lia.
+  rewrite (b64_val_char (a / 4)) by dlia.
+  rewrite (b64_val_char ((a mod 4) * 16)) by dlia.
+  assert (E0 : (a mod 4) * 16 mod 16 = 0) by dlia.
+  assert (E1 : a / 4 * 4 + (a mod 4) * 16 / 16 = a) by dlia.
   rewrite E0, E1.
   reflexivity.
 Qed.
